@@ -599,7 +599,7 @@ def trace_check(ctx, model_ok):
     shards = core.NPROC
     per_round = 150 if ctx.tier == "quick" else 1000
     per_round_m = 75 if ctx.tier == "quick" else 400
-    rounds = 1 if ctx.tier == "quick" else int(os.environ.get("C02_THOROUGH_ROUNDS", "4"))
+    rounds = 1 if ctx.tier == "quick" else int(os.environ.get("C02_THOROUGH_ROUNDS", "3"))
     binp = ctx.bin_path("h_fwd")
     binm = ctx.bin_path("h_fwdm")
     agg = collections.Counter()
